@@ -523,6 +523,22 @@ fn outcome(
     violation: Option<Violation>,
 ) -> R<RunOutcome> {
     let mut stats = w.stats.clone();
+    // C20 (c): lock-order facts of everything that ran in this run
+    let mut violation = violation;
+    {
+        let trace = klukai_types::verif::lock_trace_take();
+        let (rep, v) = crate::locks::analyze(&trace);
+        stats.probe_n("locks.acquisitions", rep.acquisitions);
+        for ((a, b), n) in rep.class_edges.iter() {
+            stats.probe_n(&format!("locks.holds {a} -> requests {b}"), *n);
+        }
+        if violation.is_none() {
+            if let Some(mut v) = v {
+                v.step = w.step;
+                violation = Some(v);
+            }
+        }
+    }
     stats.schedule_hash = schedule_hash(events);
     let faults: u64 = stats.faults.values().sum();
     stats.nontrivial = faults > 0 && (stats.converged || violation.is_some());
